@@ -2,6 +2,7 @@ package main
 
 import (
 	"fmt"
+	"math"
 
 	geom "github.com/twpayne/go-geom"
 )
@@ -37,19 +38,58 @@ func (r *Rng) levelSize() int {
 type shapeCtx struct {
 	r      *Rng
 	stride int
-	// badAt: index of the leaf that gets a wrong length (-1 none)
-	badAt, leaf int
+	// bad: leaf index -> wrong length for that leaf (empty: well formed)
+	bad  map[int]int
+	leaf int
+	hit  int
 }
 
 func (s *shapeCtx) coord() geom.Coord {
 	n := s.stride
-	if s.leaf == s.badAt {
-		for n == s.stride {
-			n = s.r.Intn(s.stride + 3)
-		}
+	if m, ok := s.bad[s.leaf]; ok {
+		n = m
+		s.hit++
 	}
 	s.leaf++
 	return s.r.genCoord(n)
+}
+
+// malformedPlan: one wrong-length leaf, several, or a compensating pair whose lengths
+// sum to 2*stride (total length still a multiple of the stride).
+func (r *Rng) malformedPlan(stride int) map[int]int {
+	bad := map[int]int{}
+	wrong := func() int {
+		n := stride
+		for n == stride {
+			n = r.Intn(stride + 3)
+		}
+		return n
+	}
+	at := r.Intn(6)
+	switch r.Intn(3) {
+	case 0:
+		bad[at] = wrong()
+	case 1:
+		for k := 1 + r.Intn(3); k > 0; k-- {
+			bad[r.Intn(8)] = wrong()
+		}
+	default:
+		d := 1 + r.Intn(2)
+		if d > stride {
+			d = stride
+		}
+		if d == 0 {
+			bad[at] = wrong()
+		} else {
+			gap := 1 + r.Intn(2)
+			if r.chance(1, 2) {
+				bad[at], bad[at+gap] = stride+d, stride-d
+			} else {
+				bad[at], bad[at+gap] = stride-d, stride+d
+			}
+		}
+	}
+	return bad
 }
 
 func (s *shapeCtx) coords1() []geom.Coord {
@@ -92,19 +132,41 @@ func (s *shapeCtx) mcoords() []geom.Coord {
 func genC01(r *Rng, e *Emitter, n int) {
 	for i := 0; i < n; i++ {
 		l := r.layoutAny()
-		s := &shapeCtx{r: r, stride: l.Stride(), badAt: -1}
-		malformed := r.chance(1, 8)
+		s := &shapeCtx{r: r, stride: l.Stride()}
+		malformed := r.chance(1, 6)
 		if malformed {
-			s.badAt = r.Intn(6)
+			s.bad = r.malformedPlan(l.Stride())
 		}
 		kind := r.Intn(7)
 		e.tally(fmt.Sprintf("layout=%d", int(l)))
 		switch kind {
 		case 0:
 			c := s.coord()
+			if r.chance(1, 4) { // signed zeros / NaNs only: equal to a fresh point under a semantic comparison
+				for i := range c {
+					c[i] = math.Float64frombits(specialBits[r.Intn(7)])
+				}
+			}
+			var first geom.Coord
+			if r.chance(1, 3) { // SetCoords on a point that already holds a (similar) coordinate
+				first = r.genCoord(l.Stride())
+				if r.chance(1, 2) && len(c) >= len(first) {
+					copy(first, c)
+				}
+				for i := range first {
+					if r.chance(1, 3) {
+						first[i] = math.Float64frombits(specialBits[r.Intn(7)])
+					}
+				}
+				e.tally("point-set-twice")
+			}
 			e.tally("type=Point")
 			e.emit("C01.set.pt", fmt.Sprintf("(%d %s)", int(l), sxCoord(c)), guard(func() string {
-				g, err := geom.NewPoint(l).SetCoords(c)
+				p := geom.NewPoint(l)
+				if first != nil {
+					p.SetCoords(first)
+				}
+				g, err := p.SetCoords(c)
 				if err != nil {
 					return sxErr(err)
 				}
@@ -180,8 +242,8 @@ func genC01(r *Rng, e *Emitter, n int) {
 				return "(ok (" + sxG2(g.Layout(), g.Stride(), g.FlatCoords(), g.Ends(), g.SRID()) + " " + rb + "))"
 			}))
 		}
-		if malformed && s.leaf > s.badAt {
-			e.tally("malformed-effective")
+		if s.hit > 0 {
+			e.tally(fmt.Sprintf("malformed-leaves=%d", s.hit))
 		}
 	}
 }
